@@ -60,6 +60,14 @@ def run(ctx):
         a = ((m.get("case") or {}).get("q") or {}).get("agg") or {}
         ctx.violation("multifrac:agg:%s:%s:%s" % (a.get("func"), m.get("path"), (m.get("what") or "")[:24]), m,
                       what="histogram / aggregation over split documents differs from one fraction holding everything: " + str(m.get("what"))[:160])
+    # one fraction holding everything at REAL size: whether a token's postings span several 65536-LID blocks, whether the
+    # ID table has several blocks, depends only on how the corpus is cut into fractions. IndexLayout.tla's real-size
+    # shapes (C03's machinery): the same corpus asked of its active form and of its sealed / reloaded forms, both orders
+    from checks import c03
+    sdrv = vlib.build_driver("shapes")
+    _, ssumm = c03.replay_shapes(ctx, sdrv, "IndexLayout_real_small.cfg" if quick else "IndexLayout_real.cfg", "multifrac:big", only_search=True)
+    for k in tot:
+        tot[k] += ssumm[k]
     # fractions are also skipped by their time range (borders, and for sealed fractions with late documents the
     # per-minute occupancy map): stores of TimePrune.tla (C14's module: fractions with minute-scale time structure,
     # queries cutting them) answered end to end must equal the answer over all documents
